@@ -69,6 +69,15 @@ func verifC02Stream(mode int, async, customExec bool, bufSize, maxReads int, bur
 		f.peerClose()
 	}
 	verifJoin()
+	if !halfClose {
+		// the readers are idle now; one more byte must wake them, be delivered,
+		// and leave them idle again (a reader left in a bad state spins here and
+		// runs into the step budget)
+		probe := verifBytes("probe", 1)
+		sent = append(sent, probe...)
+		f.peerSend(probe)
+		verifJoin()
+	}
 	verifStepBudgetEnd()
 	verifAssertD(len(got) == len(sent), "every-byte-delivered-exactly-once", name)
 	if len(got) == len(sent) {
@@ -76,7 +85,6 @@ func verifC02Stream(mode int, async, customExec bool, bufSize, maxReads int, bur
 	}
 	verifAssertD(len(f.rq) == 0, "no-input-left-unread-at-quiescence", name)
 	if !halfClose {
-		verifAssertD(c.readEvents == 0, "no-read-task-pending-at-quiescence", name)
 		verifAssertD(!c.closed, "connection-stays-open", name)
 	} else {
 		verifAssertD(c.closed && closes == 1, "half-close-closes-connection-once", name)
@@ -107,6 +115,16 @@ func verifHarness_C02_async_custom_executor() {
 
 func verifHarness_C02_half_close() {
 	verifC02Stream(verifChoose("mode", 3), false, false, 2, 3, 1, 3, true, 2)
+	verifAssert(false, "witness")
+}
+
+// three read events in a row against one running read task (the duplicate-event
+// gate in AsyncRead): one-byte bursts, edge-triggered, 3 preemptions
+func verifHarness_C02_async_three_events_gate() {
+	verifBound("bursts", 3)
+	verifBound("burst_bytes", 1)
+	verifBound("preemptions", 3)
+	verifC02Stream(1, true, true, 1, 3, 3, 1, false, 3)
 	verifAssert(false, "witness")
 }
 
